@@ -86,6 +86,7 @@ func runC19(r *Report, p *Program) {
 	r.Extra["c19_e5"] = st
 	c19R2(h)
 	c19R3(h)
+	c19R4(h)
 }
 
 // c19R2: decided as a table over read segmentations (E10, c19R2Table); the control-flow formulation (c19R2Patterns)
